@@ -247,3 +247,36 @@ c.raise_case('unknown_name', 'ValueError', when=lambda x: z3.BoolVal(x.exc.origi
     ('only_if_the_context_does_not_resolve_the_selector', lambda x: _resolved(x).is_none)])
 c.may_raise_other = True          # ambiguous name (KeyError), import errors under dynamic registration
 register(c)
+
+
+# ---- _decorate_with_scope, seen through its own body (C04) -------------------------------------------
+# Second view: without scope components the plain wrapper is delivered; with them, exactly ONE
+# scoped version is built, of the WRAPPER (not of the undecorated function), under the
+# configurable's own selector, without mutating the class, methods included.
+c = Contract('config.py::_decorate_with_scope#body', ['C04'])
+c.target = 'config.py::_decorate_with_scope'
+c.param('configurable_', Configurable)
+c.param('scope_components', ScopeList)
+c.result = KVal
+c.modifies = set(REG_FIELDS)
+c.may_raise_other = True
+
+
+def _dec_calls(x):
+  return [e for e in x.trace if e.get('call') == 'config.py::_decorate_fn_or_cls']
+
+
+c.ensure('no_scope_delivers_the_plain_wrapper_without_building_anything', lambda x: z3.Implies(
+    x.a.scope_components.len == 0, z3.And(
+        z3.BoolVal(len(_dec_calls(x)) == 0),
+        x.result.e == x.a.configurable_.fields['wrapper'].e)
+    if len(_dec_calls(x)) == 0 else z3.BoolVal(False)))
+c.ensure('a_scope_builds_one_scoped_version_of_the_wrapper', lambda x: z3.Implies(
+    x.a.scope_components.len > 0,
+    z3.BoolVal(False) if len(_dec_calls(x)) != 1 else z3.And(
+        sym.to_val(_dec_calls(x)[0]['args']['fn_or_cls']) == x.a.configurable_.fields['wrapper'].e,
+        _dec_calls(x)[0]['args']['selector'].e == x.a.configurable_.fields['selector'].e,
+        _dec_calls(x)[0]['args']['avoid_class_mutation'].e,
+        _dec_calls(x)[0]['args']['decorate_methods'].e,
+        x.result.e == _dec_calls(x)[0]['result'].e)))
+register(c)
